@@ -14,6 +14,12 @@ CLAIMED = {
     "C04": dict(cat="model_checking", tech="TLA+ display-equivalence + token grammar of ANSI writer output (AnsiOut.tla) with an abstract writer and a reader model, model-checked on all rows of width <= 4; TLC-enumerated option space and small-scope buffers replayed; cell-wise equivalence judged by TLC on traces",
                 text="AnsiOut.tla defines Shown (bold->bright, ice normalisation), display equivalence and the writer's token grammar; TLC checks that every stream the abstract writer may emit is read back to an equivalent row; all 6912 save-option configurations and 12568 small-scope buffers plus seeded random buffers go through Buffer::to_bytes / from_bytes; every reloaded cell is compared with its source cell by Trace_AnsiOut, a reader model over the tokenised output separates writer from reader faults (drift).",
                 note="modern_terminal_output excluded as the property says; source cells in ice mode carry no blink attribute; control characters only with ControlCharHandling::IcyTerm", ref="4/C04"),
+    "C05": dict(cat="model_checking", tech="format decoders of XBin/BIN/ADF/IDF/Tundra written in TLA+ from the format documents (XBin.tla, BinLike.tla), decode o every-legal-encoding model-checked; TLC-enumerated legal configurations + seeded pictures saved/reloaded and re-saved; PictureEq judged by TLC",
+                text="BinLike.tla/XBin.tla decode each format from its document; TLC checks that every legal encoding of every picture <= 2x3 over 4-cell alphabets decodes to picture, palette and font; 156 TLC-enumerated legal configurations plus seeded pictures inside each format's representable set are saved (lossless path) and reloaded, and accepted (also mutated) files are loaded, re-saved and reloaded; size, characters, displayed colours, blink, mode, fonts and palette are compared by Trace_BinFmt, the spec decoders re-read the written bytes as model layer.",
+                note="re-save half compares the glyph shown per cell (a writer may drop unused embedded fonts); spec decoding limited to pictures <= 2600 cells", ref="4/C05"),
+    "C06": dict(cat="model_checking", tech="XBin row codec specified from x_bin.htm with an ABSTRACT encoder (XBin.tla) plus a transcribed greedy compressor (XBinCompressor.tla), both model-checked; exhaustive small-scope rows and seeded buffers compressed by the engine; ValidStream / decode equality judged by TLC on every row",
+                text="XBin.tla: ValidStream (runs 1..64, no run crosses a row, exact width, only SAUCE after) and DecodeRows; TLC checks the abstract encoder sound and crossing streams rejected; every row of width <= 4-5 (orbit representatives to width 7, 2x2 alphabet to width 10) over 3 chars x 3 attrs x 2 font pages and seeded buffers 1..200 x 1..30 are compressed by the real writer; each compressed stream must be valid and decode (incl. font-page bit) to the cells, and the engine's decodes of compressed and raw files must agree; byte equality with the transcribed compressor is drift only.",
+                note="orbit reduction for widths 6-7 assumes the compressor only tests cells for equality (checked exhaustively up to width 5)", ref="4/C06"),
     "C07": dict(cat="model_checking", tech="IcyDraw chunk/record codec specified in TLA+ from ICEDFormat.md (IcyDraw.tla), decode o encode model-checked; TLC-enumerated geometry x flag x row-shape cases and seeded documents saved/reloaded; DocEq judged by TLC, spec decoder of the chunk payloads as model layer",
                 text="IcyDraw.tla decodes header, layer records, cell records (short/long/invisible/end-of-row), continuation chunks, palette, SAUCE and font chunks; TLC checks Decode(Encode(l)) = l for all layers <= 3x2 over six cell classes and decoder totality; 1555 row shapes, 31104 geometry x flag cases (sampled in quick) and seeded 1-6 layer documents are saved losslessly and reloaded; the reloaded document is compared field by field with the source (DocEq) by TLC, and the spec decoder of the recorded chunk payloads must agree with both.",
                 note="PNG framing, zlib and base64 are unwrapped by the harness with the same crates; continuation chunks (> 3 MB) only in R1", ref="4/C07"),
